@@ -242,3 +242,118 @@ Proof.
   apply andb_true_iff in H. destruct H as [Hl H]. apply andb_true_iff in H. destruct H as [Hq H].
   f_equal; [apply L; exact Hq|]. apply IH. rewrite Hl. exact H.
 Qed.
+
+(** * all eight corners of the blocks lofted to a translated and scaled copy of the sketch *)
+Ltac v3 := cbv [plane_pt top_pt vadd vsub vscale cross dot triple norm2 vx vy vz fst snd].
+Ltac vd3 c u n := destruct c as [[? ?] ?], u as [[? ?] ?], n as [[? ?] ?].
+
+Lemma plane_pt_diff c u n x0 y0 x1 y1 :
+  vsub (plane_pt c u n x1 y1) (plane_pt c u n x0 y0) = vadd (vscale (x1 - x0) u) (vscale (y1 - y0) (cross n u)).
+Proof. vd3 c u n. apply vec_eq; v3; ring. Qed.
+
+Lemma top_pt_diff c e rho p q : vsub (top_pt c e rho p) (top_pt c e rho q) = vscale rho (vsub p q).
+Proof. vd3 c e p. destruct q as [[? ?] ?]. apply vec_eq; v3; ring. Qed.
+
+Lemma top_pt_rise c u n x0 y0 h rho :
+  vsub (top_pt c (vscale h n) rho (plane_pt c u n x0 y0)) (plane_pt c u n x0 y0)
+  = vadd (vscale h n) (vadd (vscale ((rho - 1) * x0) u) (vscale ((rho - 1) * y0) (cross n u))).
+Proof. vd3 c u n. apply vec_eq; v3; ring. Qed.
+
+Lemma triple_span u w g a1 b1 a2 b2 :
+  triple (vadd (vscale a1 u) (vscale b1 w)) (vadd (vscale a2 u) (vscale b2 w)) g
+  = (a1 * b2 - a2 * b1) * dot g (cross u w).
+Proof. vd3 u w g. v3; ring. Qed.
+
+Lemma dot_rise u w n h s t :
+  dot (vadd (vscale h n) (vadd (vscale s u) (vscale t w))) (cross u w) = h * dot n (cross u w).
+Proof. vd3 u w n. v3; ring. Qed.
+
+Lemma dot_n_cross u n : dot n (cross u (cross n u)) = norm2 u * norm2 n - dot u n * dot u n.
+Proof. destruct u as [[? ?] ?], n as [[? ?] ?]. v3; ring. Qed.
+
+Lemma triple_scale2 r a b g : triple (vscale r a) (vscale r b) g = r * r * triple a b g.
+Proof. vd3 a b g. v3; ring. Qed.
+
+Lemma triple_frustum_bot c u n x0 y0 x1 y1 x2 y2 h rho :
+  triple (vsub (plane_pt c u n x1 y1) (plane_pt c u n x0 y0))
+         (vsub (plane_pt c u n x2 y2) (plane_pt c u n x0 y0))
+         (vsub (top_pt c (vscale h n) rho (plane_pt c u n x0 y0)) (plane_pt c u n x0 y0))
+  = ((x1 - x0) * (y2 - y0) - (x2 - x0) * (y1 - y0)) * h * (norm2 u * norm2 n - dot u n * dot u n).
+Proof.
+  rewrite !plane_pt_diff, top_pt_rise, triple_span, dot_rise, dot_n_cross. ring.
+Qed.
+
+Lemma triple_frustum_top c u n x0 y0 x1 y1 x2 y2 h rho :
+  triple (vsub (top_pt c (vscale h n) rho (plane_pt c u n x1 y1)) (top_pt c (vscale h n) rho (plane_pt c u n x0 y0)))
+         (vsub (top_pt c (vscale h n) rho (plane_pt c u n x2 y2)) (top_pt c (vscale h n) rho (plane_pt c u n x0 y0)))
+         (vsub (top_pt c (vscale h n) rho (plane_pt c u n x0 y0)) (plane_pt c u n x0 y0))
+  = rho * rho * ((x1 - x0) * (y2 - y0) - (x2 - x0) * (y1 - y0)) * h * (norm2 u * norm2 n - dot u n * dot u n).
+Proof.
+  rewrite !top_pt_diff, triple_scale2, triple_frustum_bot. ring.
+Qed.
+
+Lemma frustum_jacobian_plane (xy : nat -> R * R) c u n h rho q k :
+  norm2 n = 1 -> dot u n = 0 ->
+  let pt := fun i => plane_pt c u n (fst (xy i)) (snd (xy i)) in
+  corner_jacobian_bot pt (top_pt c (vscale h n) rho) q k = cross2 xy q k * h * norm2 u
+  /\ corner_jacobian_top pt (top_pt c (vscale h n) rho) q k = rho * rho * cross2 xy q k * h * norm2 u.
+Proof.
+  intros Hn Hu pt. unfold corner_jacobian_bot, corner_jacobian_top, cross2, pt.
+  rewrite triple_frustum_bot, triple_frustum_top. rewrite Hn, Hu. split; ring.
+Qed.
+
+Theorem frustum_disk_jacobian_pos :
+  forall (cr dr : R) (c u n : vec) (h rho : R),
+    norm2 n = 1 -> dot u n = 0 -> 0 < norm2 u -> 0 < h -> 0 < rho ->
+    disk_ratios_ok cr dr ->
+    forall q, In q four_core_quads -> forall k, (k < 4)%nat ->
+      0 < corner_jacobian_bot (disk_point cr dr c u n) (top_pt c (vscale h n) rho) q k
+      /\ 0 < corner_jacobian_top (disk_point cr dr c u n) (top_pt c (vscale h n) rho) q k.
+Proof.
+  intros cr dr c u n h rho Hn Hu Hu2 Hh Hr Hok q Hq k Hk.
+  destruct (frustum_jacobian_plane (disk_xy cr dr) c u n h rho q k Hn Hu) as [E1 E2].
+  unfold disk_point. rewrite E1, E2.
+  pose proof (disk_cross2_pos cr dr Hok q Hq k Hk) as Hc.
+  split; repeat apply Rmult_lt_0_compat; assumption.
+Qed.
+
+Theorem ring_all_jacobian_pos :
+  forall (nseg : nat) (ri ro : R) (c u n : vec) (h rho : R),
+    (3 <= nseg)%nat -> 0 < ri < ro ->
+    norm2 n = 1 -> dot u n = 0 -> norm2 u = 1 -> 0 < h -> 0 < rho ->
+    forall i k, (k < 4)%nat ->
+      0 < corner_jacobian_bot (ring_point nseg ri ro c u n) (top_pt c (vscale h n) rho) (ring_quad i) k
+      /\ 0 < corner_jacobian_top (ring_point nseg ri ro c u n) (top_pt c (vscale h n) rho) (ring_quad i) k.
+Proof.
+  intros nseg ri ro c u n h rho Hn [Hri Hro] Hn1 Hu Hu1 Hh Hr i k Hk.
+  destruct (frustum_jacobian_plane (ring_xy nseg ri ro) c u n h rho (ring_quad i) k Hn1 Hu) as [E1 E2].
+  unfold ring_point. rewrite E1, E2, Hu1, ring_cross2 by exact Hk.
+  pose proof (ring_delta_sin_pos nseg Hn) as Hs.
+  assert (0 < (if (k =? 0)%nat || (k =? 3)%nat then ri else ro)) by (destruct ((k =? 0)%nat || (k =? 3)%nat); lra).
+  assert (0 < ro - ri) by lra.
+  split; repeat apply Rmult_lt_0_compat; lra.
+Qed.
+
+(* rho = 1 is the translation (Cylinder, ExtrudedRing, ExtrudedShape) *)
+Lemma top_pt_translate c ext p : top_pt c ext 1 p = vadd p ext.
+Proof.
+  vd3 c ext p. apply vec_eq; v3; ring.
+Qed.
+
+(* the top sketch lies in the plane at height h, its outer points on the circle of radius rho |u| *)
+Lemma top_pt_centre c e rho p : vsub (top_pt c e rho p) (vadd c e) = vscale rho (vsub p c).
+Proof. vd3 c e p. apply vec_eq; v3; ring. Qed.
+
+Lemma top_pt_offset c u n x y h rho :
+  norm2 n = 1 -> dot u n = 0 ->
+  let p := top_pt c (vscale h n) rho (plane_pt c u n x y) in
+  norm2 (vsub p (vadd c (vscale h n))) = rho * rho * ((x * x + y * y) * norm2 u)
+  /\ dot (vsub p (vadd c (vscale h n))) n = 0.
+Proof.
+  intros Hn Hu p. unfold p. rewrite top_pt_centre.
+  destruct (plane_pt_offset c u n x y Hn Hu) as [E1 E2]. split.
+  - rewrite norm2_scale, E1. reflexivity.
+  - set (d := vsub (plane_pt c u n x y) c) in *. 
+    assert (L : forall r a b, dot (vscale r a) b = r * dot a b) by (intros r a b; vd3 a b c; v3; ring).
+    rewrite L, E2. ring.
+Qed.
